@@ -440,8 +440,8 @@ Theorem world_handle_step now w ev :
 Proof.
   destruct ev as [m|tid|a]; cbn [world_handle].
   - apply all_browsers_on_message_step.
-  - destruct (tid <? 200)%N; [apply world_cache_timeout_step|].
-    destruct (tid <? 300)%N; [apply WStep_refl; [reflexivity|intros; apply query_timeout_quiet]|].
+  - destruct (tid mod 3 =? 0)%N; [apply world_cache_timeout_step|].
+    destruct (tid mod 3 =? 1)%N; [apply WStep_refl; [reflexivity|intros; apply query_timeout_quiet]|].
     apply browser_service_timeout_step.
   - destruct a as [|ty co|jt|ci r jt|ci n ty].
     + apply WStep_refl; [reflexivity|intros; apply quiet_nil].
